@@ -121,6 +121,11 @@ def families():
                        (1, 2): um(dict[decimal.Decimal, int], lambda: {decimal.Decimal("1.00"): 1}),
                        (2, 1): um(dict[datetime.datetime, int], lambda: {u12: 1}),
                        (2, 2): um(dict[datetime.datetime, int], lambda: {u12.astimezone(_tz(2)): 1})},
+        # annotations with one runtime origin that need different routines
+        "same_origin_kinds": {(1, 1): um(tuple[int, ...], lambda: ["1", "2", "3"]), (1, 2): um(tuple[str, int], lambda: ["a", "1"]),
+                              (2, 1): ma(tuple[int, ...], lambda: (1, 2, 3)), (2, 2): ma(tuple[str, int], lambda: ("a", 1))},
+        "same_origin_kinds2": {(1, 1): um(dict[str, int], lambda: {"x": "1", "y": "2"}), (1, 2): um(I.TD, lambda: {"x": "1", "y": 2}),
+                               (2, 1): um(tuple[int, str], lambda: ["1", 2]), (2, 2): um(I.NT, lambda: ["1", 2])},
         "dateparse": {(1, 1): um(datetime.datetime, lambda: "2020-01-01"), (1, 2): um(datetime.date, lambda: "2020-01-01"),
                       (2, 1): um(datetime.timedelta, lambda: "PT1S"), (2, 2): um(datetime.timedelta, lambda: 1)},
     }
@@ -265,4 +270,4 @@ class Zygote:
 FAMILY_NAMES = ["union_unmarshal", "union_marshal", "union_in_list", "instants", "instants_in_list", "text_carriers",
                 "bare_containers", "numbers", "same_name_classes", "string_refs", "recursive", "codec_configs", "dateparse",
                 "build_order", "build_order_nt", "same_routine_inputs", "same_routine_inputs2", "private_fields", "nested_text",
-                "nested_text2", "duration_classes", "temporal_text_targets", "equal_keys"]
+                "nested_text2", "duration_classes", "temporal_text_targets", "equal_keys", "same_origin_kinds", "same_origin_kinds2"]
